@@ -24,3 +24,20 @@ package msgpackpatch
 //@   nopanic
 //@   ensures[ordered] feq(a, a) && feq(b, b) ==> (r == -1 <==> flt(a, b)) && (r == 0 <==> feq(a, b)) && (r == 1 <==> flt(b, a))
 //@   ensures[nan_equals_nothing] !feq(a, a) || !feq(b, b) ==> r != 0 && r != -1 && r != 1
+
+// Numeric class of a msgpack lead byte (the msgpack specification's code table): floats 0xca/0xcb,
+// unsigned 0xcc..0xcf and positive fixint 0x00..0x7f, signed 0xd0..0xd3 and negative fixint 0xe0..0xff.
+//@ func classifyNumericCode(c) (class)
+//@   property C13
+//@   nopanic
+//@   ensures[float] (c == 202 || c == 203) <==> class == classFloat
+//@   ensures[uint] (c <= 127 || (c >= 204 && c <= 207)) <==> class == classUint
+//@   ensures[int] (c >= 224 || (c >= 208 && c <= 211)) <==> class == classInt
+//@   ensures[none] (c >= 128 && c <= 201) || (c >= 212 && c <= 223) <==> class == classNone
+
+// Array index resolution: negative indexes count from the end; the result is in range or an error.
+//@ func resolveIndex(want, length) (idx, err)
+//@   property C13
+//@   nopanic
+//@   ensures[in_range] err == nil ==> 0 <= idx && idx < length && (want >= 0 ==> idx == want) && (want < 0 ==> idx == length + want)
+//@   ensures[out_of_range] (want >= length || want < 0 - length) ==> err != nil
